@@ -42,9 +42,9 @@ func VH_C12_maybeDeflate() {
 	if err == nil {
 		vReach("inflated-accepted", true)
 		vAssert("C12.accepted-implies-within-limit-and-decodable", expectOK)
-		vAssert("C12.decoder-called-twice", calls == 2)
-		if calls == 2 {
-			vAssert("C12.decoder-sees-exactly-the-inflated-message", vIsInflateOf(seen[1], raw))
+		vAssert("C12.decoder-ran-on-the-inflated-message", calls >= 2)
+		if calls >= 2 {
+			vAssert("C12.decoder-sees-exactly-the-inflated-message", vIsInflateOf(seen[len(seen)-1], raw))
 		}
 	} else {
 		vReach("rejected", true)
